@@ -10,6 +10,7 @@ import (
 	"encoding/json"
 	"fmt"
 	"os"
+	"os/exec"
 	"runtime"
 	"runtime/debug"
 	"sort"
@@ -31,6 +32,9 @@ type Check struct {
 	// Replay re-executes exactly one recorded case (no explorer in the loop)
 	// and reports through c.Fail if it still fails.
 	Replay func(c *Ctx, raw json.RawMessage)
+	// Aux runs a helper computation in a FRESH process (e.g. a clean baseline) and
+	// returns its result as text: zncheck -id X -aux <arg> prints it.
+	Aux func(arg string) string
 	// Budget is the internal deadline per tier; on expiry the run stops, reports
 	// exhaustive:false and still exits 0.
 	Budget func(tier string) time.Duration
@@ -363,4 +367,12 @@ func RunReplay(ch *Check, tier string, file string) int {
 		fmt.Printf("REPLAY property=%s result=FAIL kind=%s sig=%q expected=%s observed=%s\n", ch.ID, x.Kind, x.Sig, x.Expected, x.Observed)
 	}
 	return 1
+}
+
+// RunAux spawns a fresh process of this binary to evaluate ch.Aux(arg).
+func RunAux(id, arg string) (string, error) {
+	cmd := exec.Command(os.Args[0], "-id", id, "-aux", arg)
+	cmd.Stderr = os.Stderr
+	out, err := cmd.Output()
+	return string(out), err
 }
